@@ -413,3 +413,129 @@ func govcResize(t *testing.T, p *govcParams) govcOutcome {
 	}
 	return govcOutcome{detail: "grow, shrink and unbound all left the lock idle and readers could begin"}
 }
+
+// ---------------------------------------------------------------------------
+// scenario pagemethod: a public *Page method in a given life-cycle state
+//   args[0] = method; witness: p.tx.flags.active/readonly, p.flags.freed/flushed/dirty/new
+// ---------------------------------------------------------------------------
+
+func init() { govcScenarios["pagemethod"] = govcPageMethod }
+
+func govcPageMethod(t *testing.T, p *govcParams) govcOutcome {
+	method := ""
+	if len(p.Args) > 0 {
+		method = p.Args[0]
+	}
+	active := p.boolW("p.tx.flags.active", true)
+	readonly := p.boolW("p.tx.flags.readonly", false)
+	freed := p.boolW("p.flags.freed", false)
+	flushed := p.boolW("p.flags.flushed", false)
+	dirty := p.boolW("p.flags.dirty", false)
+	isNew := p.boolW("p.flags.new", false)
+	f, _, err := govcOpen(Options{})
+	if err != nil {
+		return govcOutcome{skip: "open failed: " + err.Error()}
+	}
+	var rootID PageID
+	{
+		tx, _ := f.Begin()
+		pg, _ := tx.Alloc()
+		pg.SetBytes(make([]byte, 16))
+		rootID = pg.ID()
+		tx.SetRoot(rootID)
+		if err := tx.Commit(); err != nil {
+			return govcOutcome{skip: "setup commit failed: " + err.Error()}
+		}
+	}
+	tx, err := f.BeginWith(TxOptions{Readonly: readonly})
+	if err != nil {
+		return govcOutcome{skip: "begin failed: " + err.Error()}
+	}
+	var pg *Page
+	if isNew && !readonly {
+		pg, err = tx.Alloc()
+	} else {
+		pg, err = tx.Page(rootID)
+	}
+	if err != nil || pg == nil {
+		return govcOutcome{skip: fmt.Sprintf("cannot get page: %v", err)}
+	}
+	if !readonly {
+		if dirty || flushed {
+			pg.SetBytes(make([]byte, f.PageSize()))
+		}
+		if flushed {
+			pg.Flush()
+		}
+		if freed && !dirty && !flushed {
+			pg.Free()
+		}
+	}
+	if !active {
+		tx.Close()
+	}
+	snapshot := func() string {
+		return fmt.Sprintf("%+v|%v|%+v|%v", f.allocator, f.metaActive, pg.flags, len(pg.bytes))
+	}
+	before := snapshot()
+	var callErr error
+	call := func() {
+		switch method {
+		case "MarkDirty":
+			callErr = pg.MarkDirty()
+		case "Free":
+			callErr = pg.Free()
+		case "Bytes":
+			_, callErr = pg.Bytes()
+		case "Load":
+			callErr = pg.Load()
+		case "SetBytes":
+			callErr = pg.SetBytes(make([]byte, 8))
+		case "SetBytesOversize":
+			callErr = pg.SetBytes(make([]byte, f.PageSize()+1))
+		case "Flush":
+			callErr = pg.Flush()
+		default:
+			panic("govc: unknown method " + method)
+		}
+	}
+	var panicked bool
+	var pv interface{}
+	returned := govcWithin(5*time.Second, func() { panicked, pv = govcRecover(call) })
+	after := snapshot()
+	state := fmt.Sprintf("Page.%s on page(new=%v dirty=%v flushed=%v freed=%v) of tx(active=%v readonly=%v)", method, isNew, dirty, flushed, freed, active, readonly)
+	if !returned {
+		return govcOutcome{reproduced: true, detail: state + " did not return within 5s"}
+	}
+	if panicked {
+		if govcPanicMatches(p, pv) {
+			return govcOutcome{reproduced: true, detail: fmt.Sprintf("%s panicked: %v", state, pv)}
+		}
+		return govcOutcome{detail: fmt.Sprintf("%s panicked (%v), but that is not what this obligation is about", state, pv)}
+	}
+	if p.Kind == "ensures" {
+		wantKind := func(k ErrKind) bool { return callErr != nil && txerr.Is(k, callErr) }
+		misuse := false
+		switch p.Label {
+		case "finished-is-an-error":
+			misuse = !active
+			if misuse && !(wantKind(TxFinished) || wantKind(TxReadOnly)) {
+				return govcOutcome{reproduced: true, detail: fmt.Sprintf("%s returned %v, want TxFinished", state, callErr)}
+			}
+		case "readonly-is-an-error":
+			misuse = active && readonly
+			if misuse && !wantKind(TxReadOnly) {
+				return govcOutcome{reproduced: true, detail: fmt.Sprintf("%s returned %v, want TxReadOnly", state, callErr)}
+			}
+		case "freed-or-flushed-is-an-error", "dirty-is-an-error":
+			misuse = active && !readonly && (freed || flushed || (p.Label == "dirty-is-an-error" && dirty))
+			if misuse && !wantKind(InvalidOp) {
+				return govcOutcome{reproduced: true, detail: fmt.Sprintf("%s returned %v, want InvalidOp", state, callErr)}
+			}
+		}
+		if misuse && before != after {
+			return govcOutcome{reproduced: true, detail: fmt.Sprintf("%s changed state: %s -> %s", state, before, after)}
+		}
+	}
+	return govcOutcome{detail: fmt.Sprintf("%s returned err=%v", state, callErr)}
+}
